@@ -394,7 +394,11 @@ func (x *hist) snapAll(inst string, eps []endpoint, versions []string) (map[stri
 				notes.Store("panicking read "+pfx(inst)+":"+e.Name+": "+drv.Trunc(msg[0], 160), true)
 			} else if !rs[i].OK() && rs[i].Status != 404 {
 				x.c.Seen("failing_reads", fmt.Sprintf("%s:%s:%d", pfx(inst), e.Name, rs[i].Status))
-				notes.Store(fmt.Sprintf("failing read %s:%s: %d %s", pfx(inst), e.Name, rs[i].Status, drv.Trunc(strings.ReplaceAll(string(rs[i].Body), inst, pfx(inst)), 40)), true)
+				msg := strings.ReplaceAll(string(rs[i].Body), inst, pfx(inst))
+				if k := strings.Index(msg, " for key "); k > 0 {
+					msg = msg[:k] + " for key <k>"
+				}
+				notes.Store(fmt.Sprintf("failing read %s:%s: %d %s", pfx(inst), e.Name, rs[i].Status, drv.Trunc(msg, 48)), true)
 			}
 			i++
 		}
@@ -931,6 +935,7 @@ func run(c *drv.Ctx) error {
 	c.Rule("random legal interleavings of writes/deletes (keyvalue put/delete; uint8blk block writes incl. all-background overwrites; annotation element post/delete/move with tags and relationships; " +
 		"roi post (replace) / delete) and commit / newversion / branch / merge, on one versioned instance per type (roi created with versioned=true) plus a versioned=false keyvalue; " +
 		"then a full copy and a flattened copy at every version (quick: at most 6 versions per instance incl. root, newest and merge nodes), all through datastore.CopyInstance; " +
+		"a few extra histories restart the server with backend entries that map every copy target onto a second Badger store; " +
 		"a case is one (history, instance, kind of copy, flatten version, read version) comparison over every read endpoint of the type, or one source-unchanged comparison; " +
 		"non-trivial: the source's reads at the compared version differ from a never-written instance; distinct by (hash of the operation trace, instance, copy kind, versions)")
 	c.Assume("wrapper engines add no semantics: crashkv delegates every call to storage/badger")
